@@ -67,6 +67,10 @@ def t_sub(a, b):
         return a - b
     if b == 0 and is_c(b):
         return a
+    if isinstance(a, str) and isinstance(b, str) and a.startswith(f"(+ {b} ") and a.endswith(")"):
+        rest = a[len(b) + 4:-1]
+        if rest.count("(") == rest.count(")") and (" " not in rest or rest.startswith("(")):
+            return rest if not rest.lstrip("-").isdigit() else int(rest)          # (x + y) - x = y
     (al, ah), (bl, bh) = bnd(a), bnd(b)
     return _reg(f"(- {smt(a)} {smt(b)})", al - bh if None not in (al, bh) else None, ah - bl if None not in (ah, bl) else None)
 
